@@ -2,6 +2,15 @@
 
 // Harness c08: AES-SIV (RFC 5297) and AES-KWP (RFC 5649) against the independent reference, with
 // mutation streams (property C08).
+//
+// Sections (each with its own PRNG stream, so they do not disturb each other):
+//
+//	forge.go  kwpForge    wrappings of MALFORMED plaintexts-of-the-wrap, made by the model's W (two-phase: hlib.Ask)
+//	main.go   mainLoop    AES-SIV / S2V / CMAC / XOREndAndCompute / AES-KWP differential lines + mutation streams
+//	main.go   largeLoop   a few 16–64 KiB plaintexts / associated data on chunk boundaries
+//	ctr.go    ctrHunt     (key, pt, ad) searched so that the masked SIV's low 8/16/24 bits wrap inside the message
+//	ctr.go    ctrDirect   the CTR layer alone (hook VerifCtrCrypt) on IVs whose low k bits are (nearly) all ones
+//	replay.go replay      re-evaluates the op lines of a replay file on the implementation
 package main
 
 import (
@@ -31,7 +40,15 @@ func rej(b []byte, err error) string {
 	return "ok " + hlib.Tok(b)
 }
 
-func sivLen(rng *hlib.Rng) int {
+var (
+	variants = []aessiv.Variant{aessiv.VariantTink, aessiv.VariantCrunchy, aessiv.VariantNoPrefix}
+	vcodes   = []string{"T", "C", "R"}
+)
+
+// ---------- length generators (local: hlib.MsgLen's stream is shared with other harnesses) ----------
+
+// smallLen: <16, =16, 17..31, block multiples ±1, a tail up to 300.
+func smallLen(rng *hlib.Rng) int {
 	switch rng.Intn(5) {
 	case 0:
 		return rng.Intn(16)
@@ -42,118 +59,296 @@ func sivLen(rng *hlib.Rng) int {
 	case 3:
 		return 16*(1+rng.Intn(8)) + rng.Intn(3) - 1
 	}
-	return rng.MsgLen(4100)
+	return rng.MsgLen(300) % 301
 }
 
-func main() {
-	o := hlib.Open("C08")
-	defer o.Close()
-	rng := hlib.NewRng(*hlib.FlagSeed, "c08")
-	n := hlib.N(700, 20000)
-	variants := []aessiv.Variant{aessiv.VariantTink, aessiv.VariantCrunchy, aessiv.VariantNoPrefix}
-	vcodes := []string{"T", "C", "R"}
+var chunkOffsets = []int{-17, -16, -15, -1, 0, 1, 15, 16, 17}
+
+// bigLen reaches up to max (+17), concentrated on the boundaries where chunked / streaming code changes
+// behaviour: k·(64 blocks) ± {0,1,15,16,17}, powers of two ± 1, 1040/1041, block multiples ± 1.
+func bigLen(rng *hlib.Rng, max int) int {
+	var l int
+	switch rng.Intn(6) {
+	case 0, 1:
+		k := 1 + rng.Intn(max/1024)
+		l = k*1024 + chunkOffsets[rng.Intn(len(chunkOffsets))]
+	case 2:
+		e := 5 // a power of two in 32..max, ± 1
+		for 2<<e <= max {
+			e++
+		}
+		l = 1<<(5+rng.Intn(e-4)) + rng.Intn(3) - 1
+	case 3:
+		l = rng.Pick(1023, 1024, 1025, 1039, 1040, 1041, 1042, 1055, 1056, 1057, 2047, 2048, 2049, 2063, 2064, 2065)
+	case 4:
+		l = 16*(1+rng.Intn(max/16)) + rng.Intn(3) - 1
+	default:
+		l = rng.Intn(max + 1)
+	}
+	if l < 0 {
+		l = 0
+	}
+	if l > max+17 {
+		l = max + 17
+	}
+	return l
+}
+
+// sivLens draws (plaintext length, associated-data length): both routinely up to 4 KiB.
+func sivLens(rng *hlib.Rng) (int, int) {
+	pl, al := smallLen(rng), smallLen(rng)
+	switch rng.Intn(10) {
+	case 0, 1:
+		pl = bigLen(rng, 4096)
+	case 2, 3:
+		al = bigLen(rng, 4096)
+	case 4:
+		pl, al = bigLen(rng, 4096), bigLen(rng, 4096)
+	}
+	return pl, al
+}
+
+func lenClass(n int) string {
+	switch {
+	case n < 16:
+		return "<16"
+	case n <= 1040:
+		return "16..1040"
+	case n <= 4113:
+		return "1041..4113"
+	case n < 16384:
+		return "4114..16383"
+	}
+	return ">=16384"
+}
+
+// ---------- AES-SIV instances ----------
+
+type sivInst struct {
+	d   tink.DeterministicAEAD
+	cfg string // "<key> <variant> <id>" as the driver wants it
+	pre int    // output prefix length
+}
+
+// newSIV builds the primitive for (key, variant vi, id): through keyset + daead.New, or daead/subtle for RAW.
+func newSIV(o *hlib.Out, key []byte, vi int, id uint32, useSubtle bool) sivInst {
+	var d tink.DeterministicAEAD
+	var err error
+	if vi == 2 {
+		id = 0
+	}
+	if vi == 2 && useSubtle {
+		d, err = dsubtle.NewAESSIV(append([]byte(nil), key...))
+		if o != nil {
+			o.Count("siv/subtle")
+		}
+	} else {
+		ps, e := aessiv.NewParameters(64, variants[vi])
+		if e != nil {
+			panic(e)
+		}
+		k, e := aessiv.NewKey(hlib.Secret(key), id, ps)
+		if e != nil {
+			panic(e)
+		}
+		kh, e := hlib.HandleOf(k)
+		if e != nil {
+			panic(e)
+		}
+		d, err = daead.New(kh)
+		if o != nil {
+			o.Count("siv/keyset/" + vcodes[vi])
+		}
+	}
+	if err != nil {
+		panic(err)
+	}
+	pre := 5
+	if vi == 2 {
+		pre = 0
+	}
+	return sivInst{d: d, cfg: fmt.Sprintf("%s %s %d", hlib.Tok(key), vcodes[vi], id), pre: pre}
+}
+
+func randSIV(o *hlib.Out, rng *hlib.Rng) sivInst {
+	key := rng.Bytes(64)
+	vi := rng.Intn(3)
+	id := rng.KeyID()
+	return newSIV(o, key, vi, id, rng.Chance(50))
+}
+
+// sivCase: encrypt line (property level), round trip, decrypt line, nmut ciphertext mutations (+ the two cleared
+// IV bits), nad associated-data mutations.
+func sivCase(o *hlib.Out, rng *hlib.Rng, s sivInst, pt, ad []byte, nmut, nad int) {
+	o.Count("siv/pt " + lenClass(len(pt)))
+	o.Count("siv/ad " + lenClass(len(ad)))
+	ct, err := s.d.EncryptDeterministically(pt, ad)
+	o.Emit(fmt.Sprintf("!X siv %s %s %s", s.cfg, hlib.Tok(pt), hlib.Tok(ad)), res(ct, err), true)
+	if err != nil {
+		return
+	}
+	ct2, _ := s.d.EncryptDeterministically(pt, ad)
+	if !bytes.Equal(ct, ct2) {
+		o.Violate("AES-SIV is not deterministic")
+	}
+	back, err := s.d.DecryptDeterministically(ct, ad)
+	if err != nil || !bytes.Equal(back, pt) {
+		o.Violate("AES-SIV decrypt does not invert encrypt (|pt|=%d |ad|=%d)", len(pt), len(ad))
+	}
+	o.Emit(fmt.Sprintf("X sivd %s %s %s", s.cfg, hlib.Tok(ct), hlib.Tok(ad)), rej(back, err), true)
+	muts := rng.Mutations(ct, nmut)
+	// the two IV bits that are cleared for the counter must still be authenticated
+	for _, bit := range []int{8, 12} {
+		m := append([]byte(nil), ct...)
+		m[s.pre+bit] ^= 0x80
+		muts = append(muts, hlib.Mut{Kind: "cleared-bit", Data: m})
+	}
+	// every byte of the SIV must be compared
+	if nmut > 0 {
+		m := append([]byte(nil), ct...)
+		m[s.pre+rng.Intn(16)] ^= 1 << uint(rng.Intn(8))
+		muts = append(muts, hlib.Mut{Kind: "siv-byte", Data: m})
+	}
+	for _, mu := range muts {
+		b, e := s.d.DecryptDeterministically(mu.Data, ad)
+		o.Count("sivmut/" + mu.Kind)
+		if e == nil && !bytes.Equal(mu.Data, ct) {
+			o.Violate("AES-SIV accepted a %s-mutated ciphertext", mu.Kind)
+		}
+		o.Emit(fmt.Sprintf("X sivd %s %s %s", s.cfg, hlib.Tok(mu.Data), hlib.Tok(ad)), rej(b, e), true)
+	}
+	for _, mu := range rng.Mutations(ad, nad) {
+		b, e := s.d.DecryptDeterministically(ct, mu.Data)
+		if e == nil && !bytes.Equal(mu.Data, ad) {
+			o.Violate("AES-SIV accepted modified associated data")
+		}
+		o.Emit(fmt.Sprintf("X sivd %s %s %s", s.cfg, hlib.Tok(ct), hlib.Tok(mu.Data)), rej(b, e), true)
+	}
+}
+
+// macLines: S2V (both branches), XOREndAndCompute and CMAC Compute against the RFC-text specifications.
+func macLines(o *hlib.Out, key, msg, ad []byte) {
+	s, err := dsubtle.NewAESSIV(append([]byte(nil), key...))
+	if err != nil {
+		panic(err)
+	}
+	o.Count("s2v/msg " + lenClass(len(msg)))
+	o.Count("s2v/ad " + lenClass(len(ad)))
+	o.Emit(fmt.Sprintf("!X s2vspec %s %s %s", hlib.Tok(key[:32]), hlib.Tok(msg), hlib.Tok(ad)), hlib.Tok(s.VerifS2V(msg, ad)), true)
+}
+
+func cmacLine(o *hlib.Out, key, data []byte) {
+	cm, err := aescmac.New(key)
+	if err != nil {
+		panic(err)
+	}
+	o.Count("cmac " + lenClass(len(data)))
+	o.Emit(fmt.Sprintf("!X cmacspec %s %s", hlib.Tok(key), hlib.Tok(data)), hlib.Tok(cm.Compute(data)), true)
+}
+
+func xorendLine(o *hlib.Out, key, data, last []byte) {
+	cm, err := aescmac.New(key)
+	if err != nil {
+		panic(err)
+	}
+	o.Count("xorend " + lenClass(len(data)))
+	out, _ := cm.XOREndAndCompute(data, last)
+	o.Emit(fmt.Sprintf("!X xorendspec %s %s %s", hlib.Tok(key), hlib.Tok(data), hlib.Tok(last)), hlib.Tok(out), true)
+}
+
+func kwpLen(rng *hlib.Rng) int {
+	switch rng.Intn(6) {
+	case 0:
+		return rng.Pick(0, 1, 15, 16, 17, 8191, 8192, 8193)
+	case 1:
+		return 16 + rng.Intn(120)
+	case 2:
+		return 8*(2+rng.Intn(60)) + rng.Intn(3) - 1
+	case 3:
+		return 8*(2+rng.Intn(1022)) + rng.Intn(3) - 1
+	}
+	return 16 + rng.Intn(8177)
+}
+
+// kwpCase: wrap line (property level), unwrap inverts, nmut mutated wrappings.
+func kwpCase(o *hlib.Out, rng *hlib.Rng, w *kwp.KWP, kek []byte, l int, nmut int) {
+	data := rng.Bytes(l)
+	wr, err := w.Wrap(data)
+	o.Emit(fmt.Sprintf("!X kwp %s %s", hlib.Tok(kek), hlib.Tok(data)), res(wr, err), true)
+	if err != nil {
+		if l >= 16 && l <= 8192 {
+			o.Violate("KWP refuses an admitted length %d", l)
+		}
+		return
+	}
+	back, err := w.Unwrap(wr)
+	if err != nil || !bytes.Equal(back, data) {
+		o.Violate("KWP unwrap does not invert wrap (len %d)", l)
+	}
+	if nmut < 0 {
+		return
+	}
+	o.Emit(fmt.Sprintf("X kwpu %s %s", hlib.Tok(kek), hlib.Tok(wr)), rej(back, err), true)
+	for _, mu := range rng.Mutations(wr, nmut) {
+		b, e := w.Unwrap(mu.Data)
+		o.Count("kwpmut/" + mu.Kind)
+		if e == nil && !bytes.Equal(mu.Data, wr) {
+			o.Violate("KWP accepted a %s-mutated wrapping", mu.Kind)
+		}
+		o.Emit(fmt.Sprintf("X kwpu %s %s", hlib.Tok(kek), hlib.Tok(mu.Data)), rej(b, e), true)
+	}
+}
+
+func mainLoop(o *hlib.Out, rng *hlib.Rng) {
+	n := hlib.N(700, 4200)
 	for c := 0; c < n; c++ {
 		o.Case()
 		switch rng.Intn(10) {
 		case 0, 1, 2, 3: // AES-SIV
-			key := rng.Bytes(64)
-			vi := rng.Intn(3)
-			id := rng.KeyID()
-			if vi == 2 {
-				id = 0
-			}
-			var d tink.DeterministicAEAD
-			var err error
-			if vi == 2 && rng.Chance(50) {
-				d, err = dsubtle.NewAESSIV(key)
-				o.Count("siv/subtle")
-			} else {
-				ps, e := aessiv.NewParameters(64, variants[vi])
-				if e != nil {
-					panic(e)
-				}
-				k, e := aessiv.NewKey(hlib.Secret(key), id, ps)
-				if e != nil {
-					panic(e)
-				}
-				kh, e := hlib.HandleOf(k)
-				if e != nil {
-					panic(e)
-				}
-				d, err = daead.New(kh)
-				o.Count("siv/keyset/" + vcodes[vi])
-			}
-			if err != nil {
-				panic(err)
-			}
-			cfg := fmt.Sprintf("%s %s %d", hlib.Tok(key), vcodes[vi], id)
+			s := randSIV(o, rng)
 			for j := 0; j < 3; j++ {
-				pt := rng.Bytes(sivLen(rng))
-				ad := rng.Bytes(sivLen(rng) % 300)
-				ct, err := d.EncryptDeterministically(pt, ad)
-				o.Emit(fmt.Sprintf("!X siv %s %s %s", cfg, hlib.Tok(pt), hlib.Tok(ad)), res(ct, err), true)
-				if err != nil {
-					continue
+				pl, al := sivLens(rng)
+				pt, ad := rng.Bytes(pl), rng.Bytes(al)
+				nmut, nad := 6, 2
+				if pl+al > 1500 { // driver time
+					nmut, nad = 3, 1
 				}
-				ct2, _ := d.EncryptDeterministically(pt, ad)
-				if !bytes.Equal(ct, ct2) {
-					o.Violate("AES-SIV is not deterministic")
-				}
-				back, err := d.DecryptDeterministically(ct, ad)
-				if err != nil || !bytes.Equal(back, pt) {
-					o.Violate("AES-SIV decrypt does not invert encrypt (pt=%s ad=%s)", hlib.Tok(pt), hlib.Tok(ad))
-				}
-				o.Emit(fmt.Sprintf("X sivd %s %s %s", cfg, hlib.Tok(ct), hlib.Tok(ad)), rej(back, err), true)
-				muts := rng.Mutations(ct, 6)
-				// the two IV bits that are cleared for the counter must still be authenticated
-				pl := len(ct) - len(pt) - 16
-				for _, bit := range []int{8, 12} {
-					m := append([]byte(nil), ct...)
-					m[pl+bit] ^= 0x80
-					muts = append(muts, hlib.Mut{Kind: "cleared-bit", Data: m})
-				}
-				for _, mu := range muts {
-					b, e := d.DecryptDeterministically(mu.Data, ad)
-					o.Count("sivmut/" + mu.Kind)
-					if e == nil && !bytes.Equal(mu.Data, ct) {
-						o.Violate("AES-SIV accepted a %s-mutated ciphertext", mu.Kind)
-					}
-					o.Emit(fmt.Sprintf("X sivd %s %s %s", cfg, hlib.Tok(mu.Data), hlib.Tok(ad)), rej(b, e), true)
-				}
-				for _, mu := range rng.Mutations(ad, 2) {
-					b, e := d.DecryptDeterministically(ct, mu.Data)
-					if e == nil && !bytes.Equal(mu.Data, ad) {
-						o.Violate("AES-SIV accepted modified associated data")
-					}
-					o.Emit(fmt.Sprintf("X sivd %s %s %s", cfg, hlib.Tok(ct), hlib.Tok(mu.Data)), rej(b, e), true)
-				}
+				sivCase(o, rng, s, pt, ad, nmut, nad)
 			}
-		case 4: // S2V (both branches) against RFC 5297 written from the RFC; XOREndAndCompute
+		case 4: // S2V (both branches) against RFC 5297 written from the RFC; XOREndAndCompute; CMAC
 			key := rng.Bytes(64)
-			s, err := dsubtle.NewAESSIV(key)
-			if err != nil {
-				panic(err)
-			}
 			o.Count("s2v")
 			for l := 0; l <= 50; l += 1 + rng.Intn(2) {
-				msg := rng.Bytes(l)
-				ad := rng.Bytes(rng.Intn(40))
-				o.Emit(fmt.Sprintf("!X s2vspec %s %s %s", hlib.Tok(key[:32]), hlib.Tok(msg), hlib.Tok(ad)), hlib.Tok(s.VerifS2V(msg, ad)), true)
+				macLines(o, key, rng.Bytes(l), rng.Bytes(rng.Intn(40)))
 			}
-			cm, _ := aescmac.New(key[:32])
-			for j := 0; j < 12; j++ {
+			for j := 0; j < 4; j++ {
+				pl, al := sivLens(rng)
+				if j == 0 {
+					al = bigLen(rng, 4096)
+				}
+				macLines(o, key, rng.Bytes(pl), rng.Bytes(al))
+			}
+			ck := key[:rng.Pick(16, 32, 32)]
+			for j := 0; j < 14; j++ {
 				l := 16 + rng.Intn(70)
 				if j < 4 {
 					l = 16 * (1 + j)
 				}
-				data := rng.Bytes(l)
-				last := rng.Bytes(16)
-				out, err := cm.XOREndAndCompute(data, last)
-				o.Emit(fmt.Sprintf("!X xorendspec %s %s %s", hlib.Tok(key[:32]), hlib.Tok(data), hlib.Tok(last)), hlib.Tok(out), true)
-				_ = err
+				if j >= 11 {
+					l = 16 + bigLen(rng, 4096)
+				}
+				xorendLine(o, ck, rng.Bytes(l), rng.Bytes(16))
 			}
+			for j := 0; j < 5; j++ {
+				l := smallLen(rng)
+				if j >= 2 {
+					l = bigLen(rng, 4096)
+				}
+				cmacLine(o, ck, rng.Bytes(l))
+			}
+			cm, _ := aescmac.New(key[:32])
 			for _, sz := range [][2]int{{15, 16}, {16, 15}, {16, 17}, {0, 16}} {
-				out, err := cm.XOREndAndCompute(rng.Bytes(sz[0]), rng.Bytes(sz[1]))
+				out, err := cm.XOREndAndCompute(make([]byte, sz[0]), make([]byte, sz[1]))
 				o.Emit(fmt.Sprintf("X xorend %s %s %s", hlib.Tok(key[:32]), hlib.Tok(make([]byte, sz[0])), hlib.Tok(make([]byte, sz[1]))), res(out, err), true)
 			}
 		default: // AES-KWP
@@ -168,47 +363,87 @@ func main() {
 				continue
 			}
 			o.Count("kwp")
-			var l int
-			switch rng.Intn(6) {
-			case 0:
-				l = rng.Pick(0, 1, 15, 16, 17, 8191, 8192, 8193)
-			case 1:
-				l = 16 + rng.Intn(120)
-			case 2:
-				l = 8*(2+rng.Intn(60)) + rng.Intn(3) - 1
-			case 3:
-				l = 8*(2+rng.Intn(1022)) + rng.Intn(3) - 1
-			default:
-				l = 16 + rng.Intn(8177)
-			}
-			if hlib.Thorough() && c < 8177*2 {
-				l = 16 + c%8177 // every admitted length
-			}
-			data := rng.Bytes(l)
-			wr, err := w.Wrap(data)
-			o.Emit(fmt.Sprintf("!X kwp %s %s", hlib.Tok(kek), hlib.Tok(data)), res(wr, err), true)
-			if err != nil {
-				if l >= 16 && l <= 8192 {
-					o.Violate("KWP refuses an admitted length %d", l)
-				}
-				continue
-			}
-			back, err := w.Unwrap(wr)
-			if err != nil || !bytes.Equal(back, data) {
-				o.Violate("KWP unwrap does not invert wrap (len %d)", l)
-			}
-			o.Emit(fmt.Sprintf("X kwpu %s %s", hlib.Tok(kek), hlib.Tok(wr)), rej(back, err), true)
+			l := kwpLen(rng)
+			nmut := 5
 			if l > 600 && !rng.Chance(20) {
-				continue // mutations on the long ones only sometimes (driver time)
+				nmut = 0 // mutations on the long ones only sometimes (driver time)
 			}
-			for _, mu := range rng.Mutations(wr, 5) {
-				b, e := w.Unwrap(mu.Data)
-				o.Count("kwpmut/" + mu.Kind)
-				if e == nil && !bytes.Equal(mu.Data, wr) {
-					o.Violate("KWP accepted a %s-mutated wrapping", mu.Kind)
-				}
-				o.Emit(fmt.Sprintf("X kwpu %s %s", hlib.Tok(kek), hlib.Tok(mu.Data)), rej(b, e), true)
+			kwpCase(o, rng, w, kek, l, nmut)
+		}
+	}
+	if hlib.Thorough() {
+		// every admitted key length once (wrap line only; Unwrap∘Wrap is checked on the Go side)
+		for l := 16; l <= 8192; l++ {
+			if l%64 == 16 {
+				o.Case()
+			}
+			kek := rng.Bytes(16 + 16*(l&1))
+			w, err := kwp.NewKWP(kek)
+			if err != nil {
+				panic(err)
+			}
+			o.Count("kwp/every-length")
+			kwpCase(o, rng, w, kek, l, -1)
+		}
+	}
+}
+
+// largeLoop: a few plaintexts / associated data of 16–64 KiB, on chunk boundaries and powers of two.
+func largeLoop(o *hlib.Out, rng *hlib.Rng) {
+	n := hlib.N(10, 80)
+	big := func() int {
+		if rng.Intn(3) == 0 {
+			return (1<<(14+rng.Intn(3)) + rng.Intn(3) - 1)
+		}
+		return rng.Pick(16, 17, 24, 31, 32, 33, 48, 63, 64)*1024 + chunkOffsets[rng.Intn(len(chunkOffsets))]
+	}
+	for c := 0; c < n; c++ {
+		o.Case()
+		o.Count("large")
+		pl, al := sivLens(rng)
+		switch c % 5 {
+		case 0, 1:
+			al = big()
+		case 2, 3:
+			pl = big()
+		default:
+			pl, al = big()/2, big()/2
+		}
+		pt, ad := rng.Bytes(pl), rng.Bytes(al)
+		switch c % 2 {
+		case 0:
+			sivCase(o, rng, randSIV(o, rng), pt, ad, 1, 1)
+		default:
+			key := rng.Bytes(64)
+			macLines(o, key, pt, ad)
+			if al >= 16 {
+				xorendLine(o, key[:32], ad, rng.Bytes(16))
+			}
+			cmacLine(o, key[32:32+rng.Pick(16, 32)], ad)
+			if pl >= 16 {
+				xorendLine(o, key[32:], pt, rng.Bytes(16))
 			}
 		}
 	}
+}
+
+func main() {
+	o := hlib.Open("C08")
+	defer o.Close()
+	if *hlib.FlagReplay != "" {
+		if !hlib.Pre() {
+			replay(o, *hlib.FlagReplay)
+		}
+		return
+	}
+	seed := *hlib.FlagSeed
+	// the only section that needs inputs made by the model (two-phase run, see hlib.Ask)
+	kwpForge(o, hlib.NewRng(seed, "c08/forge"))
+	if hlib.Pre() {
+		return
+	}
+	mainLoop(o, hlib.NewRng(seed, "c08"))
+	largeLoop(o, hlib.NewRng(seed, "c08/large"))
+	ctrHunt(o, hlib.NewRng(seed, "c08/hunt"))
+	ctrDirect(o, hlib.NewRng(seed, "c08/ctr"))
 }
